@@ -1,6 +1,8 @@
 package imapclient
 
 import (
+	"fmt"
+
 	"github.com/emersion/go-imap/v2"
 	"github.com/emersion/go-imap/v2/internal/imapwire"
 )
@@ -50,6 +52,8 @@ func (c *Client) handleSort() error {
 		var num uint32
 		if !c.dec.ExpectNumber(&num) {
 			return c.dec.Err()
+		} else if num == 0 {
+			return fmt.Errorf("in nz-number: message numbers must be non-zero")
 		}
 		if cmd != nil {
 			cmd.nums = append(cmd.nums, num)
